@@ -22,7 +22,7 @@ MAXAR = 3
 
 def wrapper_source():
     lines = ['w_assertz(T) :- assertz(T).', 'w_asserta(T) :- asserta(T).', 'w_retract(T) :- retract(T).',
-             'w_retractall(T) :- retractall(T).']
+             'w_retractall(T) :- retractall(T).', 'w_nil([]).']
     for n in NAMES:
         for ar in range(MAXAR + 1):
             if ar == 0:
@@ -145,14 +145,84 @@ def _drain(g, limit=10000):
             raise RuntimeError('more than %d answers' % limit)
     return n
 
+NIL_SPELLINGS = ['atom', 'ATOM_NIL', 'makelist', 'compiled']
+
+def _is_ground(t):
+    return not terms.term_vars(t)
+
+def _proper_list(t):
+    items = []
+    while t[0] == 'f' and t[1] == '.' and len(t[2]) == 2:
+        items.append(t[2][0]); t = t[2][1]
+    return items if t == ['a', '[]'] else None
+
+class PolicyTerms(terms.ImplTerms):
+    """ImplTerms whose atoms / ground terms / empty lists are obtained the way the case's 'objects' policy says:
+    role 'fact' (terms that are asserted) or 'pat' (goals and patterns);
+      objects[role] = 'table'  every atom through yp.atom(name) now
+                      'held'   the object obtained the FIRST time the name (or the ground term) was needed: a caller that
+                               keeps the terms it built and reuses them later, also after clear()
+      objects['nil_' + role]   how [] is spelled: yp.atom('[]'), yp.ATOM_NIL, yp.makelist([]) (proper lists then through
+                               yp.makelist), or the object compiled code uses for [] (handed out by the clause w_nil([]).)"""
+    def __init__(self, driver, role):
+        terms.ImplTerms.__init__(self, driver.yp)
+        self.d = driver
+        self.role = role
+    def build(self, t, eng=0):
+        pol = self.d.objects
+        if not pol:
+            return terms.ImplTerms.build(self, t, eng)
+        yp = self.d.yp
+        how = pol.get(self.role, 'table')
+        k = t[0]
+        if k == 'a':
+            if t[1] == '[]':
+                sp = pol.get('nil_' + self.role, 'atom')
+                if sp == 'ATOM_NIL':
+                    return yp.ATOM_NIL
+                if sp == 'makelist':
+                    return yp.makelist([])
+                if sp == 'compiled':
+                    return self.d.compiled_nil()
+            if how == 'held':
+                if t[1] not in self.d.held_atoms:
+                    self.d.held_atoms[t[1]] = yp.atom(t[1])
+                return self.d.held_atoms[t[1]]
+            return yp.atom(t[1])
+        if k == 'f':
+            ground = _is_ground(t)
+            key = repr(t)
+            if how == 'held' and ground and key in self.d.held_terms:
+                return self.d.held_terms[key]
+            items = _proper_list(t)
+            if items is not None and pol.get('nil_' + self.role) == 'makelist':
+                obj = yp.makelist([self.build(a, eng) for a in items])
+            else:
+                obj = yp.functor(t[1], [self.build(a, eng) for a in t[2]])
+            if how == 'held' and ground:
+                self.d.held_terms[key] = obj
+            return obj
+        return terms.ImplTerms.build(self, t, eng)
+
 class Driver:
-    def __init__(self):
+    def __init__(self, objects=None):
         from yldprolog import engine as E
         self.E = E
         self.yp = E.YP()
         self.yp.load_script_from_string(wrapper_python())
         self.cursors = {}
         self.held = []
+        self.objects = objects
+        self.held_atoms = {}
+        self.held_terms = {}
+
+    def compiled_nil(self):
+        v = self.yp.variable()
+        g = self.yp.query('w_nil', [v])
+        next(g)
+        obj = v.get_value()
+        g.close()
+        return obj
 
     def wrap_bound(self, T, obj):
         """a goal that arrives in a bound variable"""
@@ -198,7 +268,7 @@ class Driver:
     def event(self, e):
         yp = self.yp
         k = e[0]
-        T = terms.ImplTerms(yp)
+        T = PolicyTerms(self, 'fact' if k == 'assert' else 'pat')
         if k == 'assert':
             front, t, via = e[1], e[2], e[3]
             if via == 'api':
@@ -291,7 +361,7 @@ class Driver:
 def drive_events(case):
     """-> list of [event_obs, [readback per key]]; an exception of the implementation ends the list
     with ['raised', class]; a cyclic term ends it with ['deep']"""
-    d = Driver()
+    d = Driver(case.get('objects'))
     out = []
     try:
         for e in case['events']:
@@ -410,6 +480,8 @@ def gen_arg(rng, nv, pvar):
     if q < pvar + 0.08 and nv > 0:
         return ['f', 'f', [['v', rng.randrange(nv)]]]
     q = rng.random()
+    if q < 0.08:
+        return ['a', '[]']
     if q < 0.55:
         return ['a', rng.choice(ATOMS)]
     if q < 0.7:
@@ -441,6 +513,9 @@ def shrink_events(case):
             yield c
     for i in range(n):
         c = dict(case); c['events'] = evs[:i] + evs[i + 1:]; c['keys'] = case_keys(c['events'])
+        yield c
+    if case.get('objects'):
+        c = dict(case); c.pop('objects')
         yield c
     for i, e in enumerate(evs):
         if e[0] in ('assert', 'retractall') and e[-1] != 'builtin':
@@ -538,7 +613,15 @@ def gen_history(rng, nops, interleave, nkeys=None):
     for c in sorted(live):
         if rng.random() < 0.5:
             evs.append(['next', c])
-    return {'events': evs, 'keys': case_keys(evs)}
+    case = {'events': evs, 'keys': case_keys(evs)}
+    if rng.random() < 0.5:
+        # the caller keeps term objects it built earlier and reuses them, [] arrives in its different spellings
+        case['objects'] = {'fact': rng.choice(['held', 'table']), 'pat': rng.choice(['held', 'table']),
+                           'nil_fact': rng.choice(NIL_SPELLINGS), 'nil_pat': rng.choice(NIL_SPELLINGS)}
+        if rng.random() < 0.6 and len(evs) > 2:
+            # ... across a clear(): the atom table is new, the objects the caller holds are not
+            evs.insert(rng.randrange(1, max(2, len(evs) // 2)), ['clear'])
+    return case
 
 # ====================================================================== compiled programs (Engine/DbProg.v)
 # A case of kind 'dbprog':
@@ -548,9 +631,13 @@ def gen_history(rng, nops, interleave, nkeys=None):
 #   reads:   [[name, arity]]                   stored facts printed at the end (match_dynamic with new variables)
 # The program text is compiled by the real compiler; the model runs the same clauses (Engine/RunDbProg.v).
 
+_QNIL = [False]        # render the atom [] as '[]' (the compiler then emits atom('[]') instead of ATOM_NIL)
+
 def pl_term(t):
     k = t[0]
     if k == 'a':
+        if t[1] == '[]' and _QNIL[0]:
+            return "'[]'"
         return t[1]
     if k == 'i':
         return str(t[1])
@@ -564,7 +651,15 @@ def pl_term(t):
         return '%s(%s)' % (t[1], ','.join(pl_term(a) for a in t[2]))
     raise ValueError(t)
 
-def pl_goal(g):
+def pl_goal(g, nilq=None):
+    # nilq: 'pat' / 'fact' = goals / asserted terms spell the empty list '[]' instead of []
+    _QNIL[0] = (nilq == 'fact') if g[0] == 'as' else (nilq == 'pat')
+    try:
+        return _pl_goal(g)
+    finally:
+        _QNIL[0] = False
+
+def _pl_goal(g):
     k = g[0]
     if k == 'u':
         return '%s = %s' % (pl_term(g[1]), pl_term(g[2]))
@@ -583,7 +678,7 @@ def prog_source(case):
     for c in case['clauses']:
         head = pl_term(['f', c['name'], c['head']] if c['head'] else ['a', c['name']])
         if c['body']:
-            lines.append('%s :- %s.' % (head, ', '.join(pl_goal(g) for g in c['body'])))
+            lines.append('%s :- %s.' % (head, ', '.join(pl_goal(g, case.get('nilq')) for g in c['body'])))
         else:
             lines.append('%s.' % head)
     return '\n'.join(lines) + '\n'
@@ -616,9 +711,18 @@ PROG_ANSWER_CAP = 4000      # > PROG_MODEL_WORK: a run the model completes has f
 class AssertBudget(Exception):
     pass
 
+def _build_api(yp, T, t, nil):
+    if t == ['a', '[]']:
+        return yp.ATOM_NIL if nil == 'ATOM_NIL' else (yp.makelist([]) if nil == 'makelist' else yp.atom('[]'))
+    if t[0] == 'f':
+        return yp.functor(t[1], [_build_api(yp, T, a, nil) for a in t[2]])
+    return T.build(t)
+
 def prog_run_impl(case):
     from yldprolog import engine as E, compiler
     yp = E.YP()
+    if case.get('clear_first'):
+        yp.clear()            # a new atom table; yp.ATOM_NIL (= the [] of compiled code) is the object made before
     src = prog_source(case)
     yp.load_script_from_string(compiler.compile_prolog_from_string(src))
     out_q = []
@@ -642,7 +746,7 @@ def prog_run_impl(case):
     try:
         for name, args, nq in case['queries']:
             T = terms.ImplTerms(yp, nq)
-            objs = [T.build(a) for a in args]
+            objs = [_build_api(yp, T, a, case.get('api_nil', 'atom')) for a in args]
             answers = []
             g = yp.query(name, objs)
             for _ in g:
@@ -661,6 +765,20 @@ def prog_run_impl(case):
                 if len(rows) > 20000:
                     return {'end': 'read-back-does-not-end', 'queries': out_q}
             reads.append(rows)
+        # every stored fact, read back and written down again through the API (atoms from the current table, []
+        # in the spelling the case names), is a pattern that matches at least that fact
+        selfmatch = []
+        for (n, ar), rows in zip(case['reads'], reads):
+            for row in rows[:12]:
+                T = terms.ImplTerms(yp)
+                objs = [_build_api(yp, T, terms.obs_term(o), case.get('api_nil', 'atom')) for o in row]
+                k = 0
+                for _ in real_md(yp.atom(n), objs):
+                    k += 1
+                    if k > 20000:
+                        break
+                if k == 0:
+                    selfmatch.append([n, row])
     except AssertBudget:
         return {'end': 'budget', 'queries': out_q}
     except RecursionError:
@@ -669,7 +787,7 @@ def prog_run_impl(case):
         if type(ex).__name__ == 'CaseTimeout':
             raise
         return {'end': 'raised', 'what': type(ex).__name__ + ': ' + str(ex)[:200], 'queries': out_q}
-    return {'end': 'done', 'queries': out_q, 'reads': reads, 'asserts': count[0]}
+    return {'end': 'done', 'queries': out_q, 'reads': reads, 'asserts': count[0], 'selfmatch': selfmatch}
 
 def prog_compare(case, io, mo):
     """io: dict of prog_run_impl; mo: [[['answers', [...]] | ['stuck'] ...], reads | ['stuck']]"""
@@ -710,11 +828,14 @@ def prog_oracle(case, io):
         return 'a database operation issued from compiled code raised: %s' % io.get('what')
     if io['end'] == 'read-back-does-not-end':
         return io['end']
+    if io.get('selfmatch'):
+        n, row = io['selfmatch'][0]
+        return 'the stored fact %s%r, written down again as a query through the API, matches no fact' % (n, [terms.show_term(terms.obs_term(o)) for o in row])
     return None
 
 def prog_describe(case):
     return {'program': prog_source(case), 'queries': [[n, [terms.show_term(a) for a in args]] for n, args, _ in case['queries']],
-            'reads': case['reads']}
+            'reads': case['reads'], 'clear_first': case.get('clear_first', False), 'api_nil': case.get('api_nil', 'atom')}
 
 def prog_shrink(case):
     cls = case['clauses']
@@ -725,6 +846,9 @@ def prog_shrink(case):
                 continue
             n = dict(case); n['clauses'] = cls[:ci] + [c2] + cls[ci + 1:]
             yield n
+    if case.get('clear_first'):
+        n = dict(case); n.pop('clear_first'); n.pop('nilq', None); n.pop('api_nil', None)
+        yield n
     if len(case['queries']) > 1:
         for qi in range(len(case['queries'])):
             n = dict(case); n['queries'] = case['queries'][:qi] + case['queries'][qi + 1:]
@@ -847,9 +971,14 @@ def gen_dbprog(rng, loopy=0.6):
         clauses.append({'name': 'm', 'nv': nv, 'head': head, 'body': body})
     queries = [['init', [], 0], ['m', [['v', i] for i in range(h)], h]]
     if rng.random() < 0.3:
-        queries.append(['m', [['v', i] if rng.random() < 0.6 else rng.choice(consts[:4]) for i in range(h)], h])
+        queries.append(['m', [['v', i] if rng.random() < 0.6 else rng.choice(consts[:4] + [['a', '[]']]) for i in range(h)], h])
     reads = sorted(used | {K})
-    return {'kind': 'dbprog', 'clauses': clauses, 'queries': queries, 'reads': [list(k) for k in reads]}
+    case = {'kind': 'dbprog', 'clauses': clauses, 'queries': queries, 'reads': [list(k) for k in reads]}
+    if rng.random() < 0.4:
+        case['clear_first'] = True
+        case['nilq'] = rng.choice([None, 'pat', 'fact'])
+        case['api_nil'] = rng.choice(['atom', 'ATOM_NIL', 'makelist'])
+    return case
 
 def dbprog_corpus():
     v = lambda i: ['v', i]
@@ -878,4 +1007,12 @@ def dbprog_corpus():
     # non-ground facts used twice from the asserting clause (C13 from compiled code)
     L.append(case([('m', 2, [v(0)], [['as', False, f('p', v(1))], ['c', 'p', [a]], ['c', 'p', [b]], ['c', 'p', [v(0)]]])],
                   [['m', [v(0)], 1]], [['p', 1]]))
+    # [] stored by compiled code, asked for through the API after a clear() (and the other way round)
+    nil = ['a', '[]']
+    c = case([('init', 0, [], [['as', False, f('p', nil)], ['as', False, f('p', f('f', nil))]]),
+              ('m', 1, [v(0)], [['c', 'p', [nil]], ['re', f('p', f('f', v(0)))], ['as', False, f('q', v(0))]])],
+             [['init', [], 0], ['m', [nil], 1], ['m', [v(0)], 1]], [['p', 1], ['q', 1]])
+    for cf, nq, an in [(True, None, 'atom'), (True, 'pat', 'ATOM_NIL'), (True, 'fact', 'makelist'), (False, 'pat', 'atom')]:
+        c2 = dict(c); c2['clear_first'] = cf; c2['nilq'] = nq; c2['api_nil'] = an
+        L.append(c2)
     return L
